@@ -6,12 +6,12 @@ import os
 import vlib
 from framework import graph_replay
 
-RK = ["val", "exc", "drop", "mdes", "dtor", "final"]
-RCONST = {"val": "RVal", "exc": "RExc", "drop": "RDrop", "mdes": "RMdes", "dtor": "RDtor", "final": "RFinal"}
+RK = ["val", "exc", "drop", "mdes", "masg", "dtor", "final"]
+RCONST = {"val": "RVal", "exc": "RExc", "drop": "RDrop", "mdes": "RMdes", "masg": "RMasg", "dtor": "RDtor", "final": "RFinal"}
 WCONST = {"co": "WCo", "hv": "WHv", "bl": "WBl", "cb": "WCb"}
 ACTIONS = ["Claim", "SwapReady", "CheckReady", "SubCAS"]
 
-RPC = {"claim": "claim", "dtor": "dtor", "dload_own": "dload", "dload_null": "dload", "dload_p_own": "dload",
+RPC = {"mclaim_own": "mclaim_own", "massign_own": "massign", "massign_null": "massign", "claim": "claim", "dtor": "dtor", "dload_own": "dload", "dload_null": "dload", "dload_p_own": "dload",
        "dload_p_null": "dload", "swap": "swap", "flagstore": "flagstore", "notify": "notify", "done": "done"}
 
 
@@ -102,6 +102,7 @@ def resolver_mixes():
     out.append(["dtor"])
     out.append(["val", "dtor"])
     out.append(["final"])
+    out += [["masg", "val"], ["masg", "masg", "dtor"], ["masg", "exc", "drop"], ["mdes", "masg"]]
     return out
 
 
